@@ -833,7 +833,8 @@ fn gen_body_case(ch: &mut Chooser, tool: Tool, lang: Lang, sk: &[Sk], sk_text: &
     let n_layouts = match (tool.kind, lang) { (Kind::Std, _) => 1, (Kind::Ecl, Lang::Timeline) => if game == Game::Th06 { 1 } else { 3 }, (Kind::Anm, _) => 4, _ => 3 };
     let layout = ch.pick(n_layouts);
     let params = if lang == Lang::EclSub { ch.pick(3) } else { 0 };
-    let spec_a = |index: usize| ScriptSpec { lang, name: "scrA", index, prefix: "a", marker_base: 0x5A5A_0000, sk, frozen: false, params, const_use: None, local_consts: vec![], len0 };
+    let name_a = if tool.kind == Kind::Std { "main" } else { "scrA" };
+    let spec_a = |index: usize| ScriptSpec { lang, name: name_a, index, prefix: "a", marker_base: 0x5A5A_0000, sk, frozen: false, params, const_use: None, local_consts: vec![], len0 };
     let main_lang = sub_lang(tool);
     // companion scripts are built from explicit nodes so that they always contain labels
     let companion = |name: &str, l: Lang, index: usize, prefix: &str, base: u32| -> BuiltScript {
@@ -979,7 +980,7 @@ fn gen_const_case(ch: &mut Chooser, tool: Tool, depth: u32) -> Option<Case> {
     }
     let sk = parse_sk("M");
     let const_use = if lang.regs() { Some((names[0].as_str(), types[0])) } else { None };
-    let a = build_script(ch, game, &ScriptSpec { lang, name: "scrA", index: 0, prefix: "a", marker_base: 0x5A5A_0000, sk: &sk, frozen: true, params: 0, const_use, local_consts, len0: None });
+    let a = build_script(ch, game, &ScriptSpec { lang, name: if tool.kind == Kind::Std { "main" } else { "scrA" }, index: 0, prefix: "a", marker_base: 0x5A5A_0000, sk: &sk, frozen: true, params: 0, const_use, local_consts, len0: None });
     let mut timelines = vec![];
     if tool.kind == Kind::Ecl {
         let tsk = parse_sk("M");
@@ -1019,7 +1020,9 @@ fn enumerate_cases(thorough: bool) -> (Vec<Case>, GenStats) {
         let mut jobs: Vec<(Lang, String, Option<usize>, u32)> = vec![];
         match tool.kind {
             Kind::Anm | Kind::Ecl if main.regs() => {
-                for s in SK_REGS { jobs.push((main, s.to_string(), None, bound_regs)); }
+                // quick: ECL th07/th08 take every other register skeleton (th06 and ANM th12 take all)
+                let half = !thorough && tool.kind == Kind::Ecl && tool.game != Game::Th06;
+                for (si, s) in SK_REGS.iter().enumerate() { if !half || si % 2 == 0 { jobs.push((main, s.to_string(), None, bound_regs)); } }
                 if thorough { for s in SK_REGS_THOROUGH { jobs.push((main, s.to_string(), None, bound_regs)); } }
                 if main.diff() { for s in SK_DIFF { jobs.push((main, s.to_string(), None, bound_regs)); } }
                 if tool.kind == Kind::Ecl { for s in SK_FLAT { jobs.push((Lang::Timeline, s.to_string(), None, bound_regs)); } }
@@ -1049,7 +1052,11 @@ fn enumerate_cases(thorough: bool) -> (Vec<Case>, GenStats) {
         });
         if st.capped { stats.capped = true; }
     }
-    (cases, stats)
+    // interleave the formats (simplest cases of every format first), so that a wall cap cuts all formats evenly
+    let mut ord: BTreeMap<Tool, usize> = BTreeMap::new();
+    let mut keyed: Vec<(usize, Case)> = cases.into_iter().map(|c| { let n = ord.entry(c.tool).or_insert(0); *n += 1; (*n, c) }).collect();
+    keyed.sort_by(|a, b| (a.0, a.1.tool).cmp(&(b.0, b.1.tool)));
+    (keyed.into_iter().map(|k| k.1).collect(), stats)
 }
 
 // =============================================================================================
